@@ -5,7 +5,7 @@ data shape: every unit vector (every group x every count of the alphabet),
 every pair and triple of data-shape class representatives x count pairs, keys
 as strings and as Group objects, on the temperature grid of the common range;
 plus every such mapping with 1-2 descriptors that lack the property set
-inserted at the first, middle and last position.
+inserted (with counts 1, 0, 0.0 and -2) at the first, middle and last position.
 """
 from ..runner import Result
 from ..domains import estimates as E
@@ -118,8 +118,9 @@ def check_missing(R, name, lib, mapping):
     base = [(str(g), c) for g, c in mapping]
     extras = [[m] for m in MISSING] + [[MISSING[0], MISSING[2]], [MISSING[1], MISSING[0]]]
     for ex in extras:
+      for cnt in (1, 0, 0.0, -2):
         for pos in sorted(set([0, len(base) // 2, len(base)])):
-            items = base[:pos] + [(x, 1) for x in ex] + base[pos:]
+            items = base[:pos] + [(x, cnt) for x in ex] + base[pos:]
             d = dict(items)
             R.evals += 1
             R.nontrivial += 1
